@@ -40,6 +40,10 @@ KINDS = [
     ('B', '', 'vw.cons', 'p', '@s/vw.src()', ('ref', 's/vw.src', True)),
     ('B', 'a', 'cons', 'q', '[@vw.src, %sc/mac]', [('ref', 'vw.src', False), ('macro', 'sc/mac')]),
     ('K', '', 'dflt', [('a', '-5', -5)]),
+    # configurables whose (legal) names are statement keywords
+    ('B', '', 'include', 'x', '1', 1),
+    ('B', 's', 'import', 'x', "'v'", 'v'),
+    ('K', '', 'include', [('x', '[2]', [2])]),
 ]
 NK = len(KINDS)
 
@@ -171,7 +175,7 @@ K2_QUICK = [0, 9, 4]   # neighbours used by the quick tier: flat binding, block,
 def c03_layout(nk2: int, nf2: int, k1: int, f1: int, k2: int, f2: int, k3: int, f3: int, n: int,
                swap: bool, indent_all: bool, final_nl: bool) -> bool:
   """
-  pre: 0 <= k1 < 13 and 0 <= k2 < nk2 and 0 <= k3 < 13 and 1 <= n <= 3
+  pre: 0 <= k1 < 16 and 0 <= k2 < nk2 and 0 <= k3 < 16 and 1 <= n <= 3
   pre: 0 <= f1 < 64 and 0 <= f2 < nf2 and 0 <= f3 < 64
   """
   k2 = rt.pick(k2, nk2)
@@ -315,9 +319,9 @@ HARNESSES = {
                              fixed=dict(n=2, k3=0, f3=0, nk2=3, nf2=1), budget_s=100),
                'thorough': dict(split=dict(k1=list(range(NK)), k2=list(range(NK)),
                                            indent_all=[False, True]),
-                                fixed=dict(n=2, k3=0, f3=0, nk2=13, nf2=3), budget_s=900)},
-        bounds='2 statements in either order: one from 13 kinds with every combination of at most two of 8 layout features, the other from 3 kinds in default layout (quick) / 13 kinds x {default, 1 or 2 blank lines before} (thorough); kinds: (flat/scoped bindings, macro definitions, 4 import '
-               'forms, include, blocks, reference/macro values); per statement every combination of at most two of 8 '
+                                fixed=dict(n=2, k3=0, f3=0, nk2=16, nf2=3), budget_s=900)},
+        bounds='2 statements in either order: one from 16 kinds with every combination of at most two of 8 layout features, the other from 3 kinds in default layout (quick) / 13 kinds x {default, 1 or 2 blank lines before} (thorough); kinds: (flat/scoped bindings, macro definitions, 4 import '
+               'forms, include, blocks, reference/macro values, configurables named `include` / `import` in flat and block form); per statement every combination of at most two of 8 '
                'layout features (blank lines, comment line, trailing comment, 3 spacings of =, value broken inside '
                'brackets with comments, backslash continuation, flat vs block, header comment, blank/comment lines '
                'inside the block); whole text indented or not; final newline or not'),
